@@ -279,6 +279,9 @@ func (c *Ctx) finish(wall time.Duration) int {
 	for _, e := range c.NotDecided {
 		fmt.Printf("  not-decided %s\n", e)
 	}
+	for _, e := range c.Degraded {
+		fmt.Printf("  degraded %s\n", e)
+	}
 	violations := 0
 	repDir := filepath.Join(c.Verif, "evidence", "reports")
 	for _, f := range c.Findings {
@@ -361,6 +364,7 @@ func (c *Ctx) writeEvidence(wall time.Duration) {
 		"functions":           c.Stats["functions"],
 		"exceptions":          c.Exceptions,
 		"not_decided":         c.NotDecided,
+		"degraded":            c.Degraded,
 		"known_findings":      c.KnownHit,
 		"check_errors":        c.CheckErrors,
 		"exhaustive":          true,
